@@ -232,6 +232,23 @@ def translate_process_lambda():
             'Definition clone_passes_filter_num : bool := %s.\n' % (lineno, passes))
 
 
+def translate_count_default():
+    """construct_sql_ast, aggregate branch: the DISTINCT flag of COUNT(<column>) when count() is called without `distinct=`.
+    `True if aggr_func_distinct is None else aggr_func_distinct` -> always DISTINCT ('false': does not follow the query);
+    `bool(distinct) if aggr_func_distinct is None else aggr_func_distinct` -> the DISTINCT the query itself runs with ('true')."""
+    fdef, src, lineno = load_function('pony/orm/sqltranslation.py', 'SQLTranslator.construct_sql_ast')
+    found = []
+    for n in ast.walk(fdef):
+        if isinstance(n, ast.Assign) and ast.unparse(n.targets[0]) == 'aggr_ast' and isinstance(n.value, ast.List) and len(n.value.elts) == 3 \
+                and isinstance(n.value.elts[0], ast.Constant) and n.value.elts[0].value == 'COUNT':
+            found.append(ast.unparse(n.value.elts[1]))
+    if found == ['True if aggr_func_distinct is None else aggr_func_distinct']: v = 'false'
+    elif found == ['bool(distinct) if aggr_func_distinct is None else aggr_func_distinct']: v = 'true'
+    else: raise TranslateError('construct_sql_ast: COUNT(<column>) aggregate not recognised: %r' % found)
+    return ('(* pony/orm/sqltranslation.py construct_sql_ast: does count() of a single-column query use the DISTINCT the query runs with? *)\n'
+            'Definition count_default_follows_query : bool := %s.\n' % v)
+
+
 def generate():
     check_fetch_signature()
     out = ['(* GENERATED by tools/py2coq/querywindow.py from /repo on every run -- do not edit *)',
@@ -243,6 +260,7 @@ def generate():
     out.append(translate_method('Query.fetch', 'query_fetch', {'limit': 'option Z', 'offset': 'option Z'}, '(limit offset : option Z)'))
     out.append(translate_distinct())
     out.append(translate_process_lambda())
+    out.append(translate_count_default())
     return '\n'.join(out)
 
 
